@@ -33,6 +33,7 @@ import (
 // symbols of the alphabet
 const (
 	S   = "S"   // MsgSend
+	W   = "W"   // RawWrite of a message (what Conn.Invoke uses)
 	R   = "R"   // MsgRecv
 	CS  = "CS"  // CloseSend
 	C   = "C"   // Close
@@ -50,7 +51,7 @@ const (
 	RF  = "rF"  // packet for a foreign stream id
 )
 
-var alphabet = []string{S, R, CS, C, E, SC, X, RM, RCS, RC, RE, RX, RI, RU, RUC, RF}
+var alphabet = []string{S, W, R, CS, C, E, SC, X, RM, RCS, RC, RE, RX, RI, RU, RUC, RF}
 
 var errCancel = errors.New("verif cancel cause")
 var errApp = drpcerr.WithCode(errors.New("application failure"), 77)
@@ -168,20 +169,23 @@ func recvWant(cause string) string {
 }
 
 type run struct {
-	id     string
-	seq    []string
-	st     *drpcstream.Stream
-	gw     *gateWriter
-	m      *model
-	pkts   chan drpcwire.Packet
-	rdDone chan struct{}
-	rdMu   sync.Mutex
-	rdErrs []error // HandlePacket results in order
-	ops    []*opRec
-	fails  []string
-	rmsg   uint64
-	msgN   uint32
-	steps  []string
+	id          string
+	seq         []string
+	st          *drpcstream.Stream
+	gw          *gateWriter
+	m           *model
+	pkts        chan drpcwire.Packet
+	rdDone      chan struct{}
+	rdMu        sync.Mutex
+	rdErrs      []error // HandlePacket results in order
+	ops         []*opRec
+	fails       []string
+	rmsg        uint64
+	msgN        uint32
+	steps       []string
+	part        *partialMsg
+	parkedMsg   *opRec
+	pendingCont *emitExp
 }
 
 func (r *run) failf(format string, args ...interface{}) {
@@ -193,7 +197,7 @@ func (r *run) failf(format string, args ...interface{}) {
 func newRun(id string, seq []string, parkAt int) *run {
 	r := &run{id: id, seq: seq, m: &model{}, pkts: make(chan drpcwire.Packet, 64), rdDone: make(chan struct{})}
 	r.gw = &gateWriter{parkAt: parkAt, reached: make(chan struct{}), release: make(chan struct{})}
-	wr := drpcwire.NewWriter(r.gw, 0)
+	wr := drpcwire.NewWriter(r.gw, 1) // every frame is handed to the io.Writer at once: nothing stays buffered
 	r.st = drpcstream.NewWithOptions(context.Background(), streamID, wr, drpcstream.Options{SplitSize: 40})
 	go func() {
 		defer close(r.rdDone)
@@ -223,6 +227,11 @@ func (r *run) local(sym string, idx int) *opRec {
 		rec.data = payload.Make(1, 0, 0, r.msgN, int(r.msgN%3)*45)
 		d := rec.data
 		rec.op = rig.Go(sym, func() (interface{}, error) { return nil, r.st.MsgSend(&d, payload.Enc{}) })
+	case W:
+		r.msgN++
+		rec.data = payload.Make(1, 0, 0, r.msgN, int(r.msgN%3)*45)
+		d := rec.data
+		rec.op = rig.Go(sym, func() (interface{}, error) { return nil, r.st.RawWrite(drpcwire.KindMessage, d) })
 	case R:
 		rec.op = rig.Go(sym, func() (interface{}, error) {
 			var out []byte
@@ -386,7 +395,16 @@ type emitExp struct {
 	kind    uint8
 	control bool
 	data    []byte
-	msg     bool // message packet (possibly several frames)
+	msg     bool   // message packet (possibly several frames)
+	contOf  uint64 // non-zero: continuation frames of this message id (data is the remaining suffix)
+}
+
+// partialMsg is a message whose first frame(s) were written when its write parked.
+type partialMsg struct {
+	msgID   uint64
+	data    []byte
+	emitted int
+	rec     *opRec
 }
 
 // step executes one symbol; returns the emission expected to become visible when the op runs.
@@ -414,8 +432,8 @@ func (r *run) step(i int, sym string, parkThis bool) {
 		}
 	} else {
 		switch sym {
-		case S:
-			if m.writeWaiter != nil && m.writeWaiter.sym == R {
+		case S, W:
+			if m.writeWaiter != nil && m.writeWaiter.sym == R && sym == S {
 				skip = true // the first receive's flush is in progress (sync.Once): order not determined
 				break
 			}
@@ -426,11 +444,15 @@ func (r *run) step(i int, sym string, parkThis bool) {
 				}
 				rec = r.local(sym, i)
 				m.writeWaiter = rec
-				m.flushOnce = true
+				if sym == S {
+					m.flushOnce = true
+				}
 				break
 			}
 			rec = r.local(sym, i)
-			m.flushOnce = true
+			if sym == S {
+				m.flushOnce = true
+			}
 			if m.sendSet {
 				rec.want = sendWant(m.sendCause)
 			} else {
@@ -531,6 +553,9 @@ func (r *run) step(i int, sym string, parkThis bool) {
 			r.failf("step %d %s: expected the write to reach the transport (%s)", i, sym, st)
 		}
 		rec.want = "parked:" + rec.want
+		if exp.msg {
+			r.parkedMsg = rec
+		}
 	}
 	r.observe(i, sym, exp, parkThis && exp != nil)
 }
@@ -653,7 +678,14 @@ func (r *run) observe(i int, sym string, exp *emitExp, parked bool) {
 	}
 
 	// 2. frames emitted by this step
-	r.checkEmission(where, exp)
+	if parked && exp != nil && exp.msg {
+		r.checkPartial(where, exp)
+	} else if exp2 := r.pendingCont; exp2 != nil {
+		r.pendingCont = nil
+		r.checkEmission(where, exp2, exp)
+	} else {
+		r.checkEmission(where, exp)
+	}
 
 	// 3. signals
 	term := r.st.IsTerminated()
@@ -692,36 +724,19 @@ func (r *run) observe(i int, sym string, exp *emitExp, parked bool) {
 	// (the number of handled packets is compared at the end; here only that it is not ahead)
 }
 
-func (r *run) checkEmission(where string, exp *emitExp) {
+// checkPartial: the write of a message parked on its first frame: what has been
+// handed to the io.Writer must be a prefix of the message's frames.
+func (r *run) checkPartial(where string, exp *emitExp) {
 	raw := r.gw.take()
 	frames, rest, st := refwire.DecodeAll(raw)
-	if st != refwire.OK || len(rest) != 0 {
-		r.failf("%s: bytes written are not whole frames (%d trailing)", where, len(rest))
-		return
-	}
-	if exp == nil {
-		if len(frames) != 0 {
-			r.failf("%s: %d frame(s) emitted (first kind=%d) but the state machine emits nothing here", where, len(frames), frames[0].Kind)
-		}
-		return
-	}
-	if len(frames) == 0 {
-		r.failf("%s: nothing emitted; expected a packet of kind %d", where, exp.kind)
+	if st != refwire.OK || len(rest) != 0 || len(frames) == 0 {
+		r.failf("%s: expected the first frame(s) of the message on the writer, got %d frames (%d trailing bytes)", where, len(frames), len(rest))
 		return
 	}
 	var data []byte
-	for k, f := range frames {
-		if f.Stream != streamID {
-			r.failf("%s: frame with stream id %d", where, f.Stream)
-		}
-		if f.Kind != exp.kind || f.Control != exp.control {
-			r.failf("%s: frame kind=%d control=%v, want kind=%d control=%v", where, f.Kind, f.Control, exp.kind, exp.control)
-		}
-		if f.Message != frames[0].Message {
-			r.failf("%s: one call emitted frames of several message ids", where)
-		}
-		if f.Done != (k == len(frames)-1) {
-			r.failf("%s: done flag on frame %d of %d is %v", where, k, len(frames), f.Done)
+	for _, f := range frames {
+		if f.Kind != 2 || f.Stream != streamID || f.Message != frames[0].Message || f.Control {
+			r.failf("%s: unexpected frame while the message write is parked: kind=%d id=(%d,%d)", where, f.Kind, f.Stream, f.Message)
 		}
 		data = append(data, f.Data...)
 	}
@@ -729,11 +744,77 @@ func (r *run) checkEmission(where string, exp *emitExp) {
 		r.failf("%s: message id %d does not increase (last %d)", where, frames[0].Message, r.m.lastMsgID)
 	}
 	r.m.lastMsgID = frames[0].Message
-	if !exp.msg && len(frames) != 1 {
-		r.failf("%s: control packet split into %d frames", where, len(frames))
+	if !bytes.HasPrefix(exp.data, data) {
+		r.failf("%s: frames written so far are not a prefix of the message", where)
 	}
-	if !bytes.Equal(data, exp.data) {
-		r.failf("%s: packet kind %d carries %d bytes (%x), want %d bytes", where, exp.kind, len(data), trunc(data), len(exp.data))
+	last := frames[len(frames)-1]
+	if last.Done != (len(data) == len(exp.data)) {
+		r.failf("%s: done flag %v after %d of %d bytes", where, last.Done, len(data), len(exp.data))
+	}
+	r.part = &partialMsg{msgID: frames[0].Message, data: exp.data, emitted: len(data), rec: r.parkedMsg}
+}
+
+func (r *run) checkEmission(where string, exps ...*emitExp) {
+	raw := r.gw.take()
+	frames, rest, st := refwire.DecodeAll(raw)
+	if st != refwire.OK || len(rest) != 0 {
+		r.failf("%s: bytes written are not whole frames (%d trailing)", where, len(rest))
+		return
+	}
+	var want []*emitExp
+	for _, e := range exps {
+		if e != nil {
+			want = append(want, e)
+		}
+	}
+	// group frames into packets by message id
+	var groups [][]refwire.Frame
+	for _, f := range frames {
+		if n := len(groups); n > 0 && groups[n-1][0].Message == f.Message && !groups[n-1][len(groups[n-1])-1].Done {
+			groups[n-1] = append(groups[n-1], f)
+		} else {
+			groups = append(groups, []refwire.Frame{f})
+		}
+	}
+	if len(groups) != len(want) {
+		kinds := []string{}
+		for _, g := range groups {
+			kinds = append(kinds, fmt.Sprintf("kind=%d(msg %d, %d frames)", g[0].Kind, g[0].Message, len(g)))
+		}
+		r.failf("%s: %d packet(s) emitted %v but the state machine emits %d here", where, len(groups), kinds, len(want))
+		return
+	}
+	for gi, g := range groups {
+		exp := want[gi]
+		var data []byte
+		for k, f := range g {
+			if f.Stream != streamID {
+				r.failf("%s: frame with stream id %d", where, f.Stream)
+			}
+			if f.Kind != exp.kind || f.Control != exp.control {
+				r.failf("%s: frame kind=%d control=%v, want kind=%d control=%v", where, f.Kind, f.Control, exp.kind, exp.control)
+			}
+			if f.Done != (k == len(g)-1) {
+				r.failf("%s: done flag on frame %d of %d is %v", where, k, len(g), f.Done)
+			}
+			data = append(data, f.Data...)
+		}
+		if exp.contOf != 0 {
+			if g[0].Message != exp.contOf {
+				r.failf("%s: continuation frames carry message id %d, want %d", where, g[0].Message, exp.contOf)
+			}
+		} else {
+			if g[0].Message <= r.m.lastMsgID {
+				r.failf("%s: message id %d does not increase (last %d)", where, g[0].Message, r.m.lastMsgID)
+			}
+			r.m.lastMsgID = g[0].Message
+		}
+		if !exp.msg && len(g) != 1 {
+			r.failf("%s: control packet split into %d frames", where, len(g))
+		}
+		if !bytes.Equal(data, exp.data) {
+			r.failf("%s: packet kind %d carries %d bytes (%x), want %d bytes", where, exp.kind, len(data), trunc(data), len(exp.data))
+		}
 	}
 }
 
@@ -758,11 +839,24 @@ func (r *run) releaseParked(i int) {
 			}
 		}
 	}
+	if p := r.part; p != nil {
+		r.part = nil
+		if p.emitted < len(p.data) {
+			if m.sendSet {
+				// the stream's send side was ended while the message was half written:
+				// nothing more of it may be emitted, and the send must report it
+				p.rec.want = sendWant(m.sendCause)
+			} else {
+				p.rec.want = xNil
+				r.pendingCont = &emitExp{msg: true, kind: 2, data: p.data[p.emitted:], contOf: p.msgID}
+			}
+		}
+	}
 	var exp *emitExp
 	if w := m.writeWaiter; w != nil {
 		m.writeWaiter = nil
 		switch w.sym {
-		case S:
+		case S, W:
 			if m.sendSet {
 				w.want = sendWant(m.sendCause)
 			} else {
@@ -1003,7 +1097,7 @@ func gen(tier string, seed uint64) []runner.Scenario {
 	recP = func(prefix []string) {
 		if len(prefix) >= 2 {
 			for p, sym := range prefix[:len(prefix)-1] {
-				if sym == S || sym == CS || sym == C || sym == E || sym == SC {
+				if sym == S || sym == W || sym == CS || sym == C || sym == E || sym == SC {
 					addSeq(prefix, p)
 				}
 			}
@@ -1029,7 +1123,7 @@ func gen(tier string, seed uint64) []runner.Scenario {
 			seq[k] = alphabet[r.Intn(len(alphabet))]
 			// bias towards non-terminal symbols so sequences stay interesting
 			if r.Intn(3) == 0 {
-				seq[k] = []string{S, R, RM, RUC, RF, CS, RCS}[r.Intn(7)]
+				seq[k] = []string{S, W, R, RM, RUC, RF, CS, RCS}[r.Intn(8)]
 			}
 		}
 		park := -1
